@@ -1518,11 +1518,11 @@ MUTANTS = [
     dict(id="fillna-standard-path-non-nullable", module=_V, old="			new_dtype = dtype.with_nullable(nullable=new_nullable)",
          new="			new_dtype = dtype.with_nullable(nullable=False)", rules=["a.site-typing"]),
     dict(id="dropna-keeps-none", module=_V,
-         old="		return Vector(tuple(elem for elem in self._underlying if elem is not None), dtype=self._dtype.with_nullable(False))",
-         new="		return Vector(tuple(elem for elem in self._underlying), dtype=self._dtype.with_nullable(False))", rules=["a.site-typing"]),
+         old="		return Vector(tuple(elem for elem in self._underlying if elem is not None),\n			dtype=self._dtype.with_nullable(False) if self._dtype is not None else None)",
+         new="		return Vector(tuple(elem for elem in self._underlying),\n			dtype=self._dtype.with_nullable(False) if self._dtype is not None else None)", rules=["a.site-typing"]),
     dict(id="dropna-fast-path", module=_V,
-         old="		return Vector(tuple(elem for elem in self._underlying if elem is not None), dtype=self._dtype.with_nullable(False))",
-         new="		if not self._dtype.nullable:\n			return Vector(self._underlying, dtype=self._dtype.with_nullable(False))\n		return Vector(tuple(elem for elem in self._underlying if elem is not None), dtype=self._dtype.with_nullable(False))",
+         old="		return Vector(tuple(elem for elem in self._underlying if elem is not None),\n			dtype=self._dtype.with_nullable(False) if self._dtype is not None else None)",
+         new="		if self._dtype is not None and not self._dtype.nullable:\n			return Vector(self._underlying, dtype=self._dtype.with_nullable(False))\n		return Vector(tuple(elem for elem in self._underlying if elem is not None),\n			dtype=self._dtype.with_nullable(False) if self._dtype is not None else None)",
          rules=["a.site-typing"]),
     dict(id="compare-drops-bool", module=_V, count=2, nth=0,
          old="			result_values = tuple(False if (x is None or y is None) else bool(op(x, y)) for x, y in zip(self, other, strict=True))",
@@ -1554,7 +1554,7 @@ MUTANTS = [
          old="			new_tuple = tuple(datetime.combine(x, datetime.min.time()) if x is not None else None for x in self._underlying)",
          new="			new_tuple = tuple(datetime.combine(x, datetime.min.time()) for x in self._underlying if x is not None)", rules=["b.promote"]),
     dict(id="can-promote-bool-to-int", module=_V,
-         old="		if target_kind is float:\n			return kind is int", new="		if target_kind is float:\n			return kind in (int, str)", rules=["b.promote", "b.validation-loop"]),
+         old="		if target_kind is float:\n			return kind in (bool, int)", new="		if target_kind is float:\n			return kind in (bool, int, str)", rules=["b.promote", "b.validation-loop"]),
     dict(id="sort-by-maps-values", module=_V, old="		new_values = tuple(sorted(self._underlying, key=key_fn, reverse=reverse))",
          new="		new_values = tuple(str(x) for x in sorted(self._underlying, key=key_fn, reverse=reverse))", rules=["a.site-typing"]),
     dict(id="copy-caller-passes-computed", module=_V, old="			return self.copy(self._underlying[key], name=self._name)",
@@ -1563,5 +1563,5 @@ MUTANTS = [
     dict(id="twin-hoist-bool-dtype", module=_V, twin=True,
          old="		return Vector(tuple(elem is None for elem in self._underlying), dtype=DataType(bool))",
          new="		bool_dtype = DataType(bool, nullable=False)\n		return Vector(tuple(elem is None for elem in self._underlying), dtype=bool_dtype)"),
-    dict(id="twin-rename-target", module=_V, twin=True, edits=[(_V, "target", "needed", 47)]),
+    dict(id="twin-rename-target", module=_V, twin=True, edits=[(_V, "target", "needed", 49)]),
 ]
